@@ -184,6 +184,40 @@ func c16Exec(op string) string {
 	if raw, err := mv.JsonIndentWriterRaw(&w, pre, ind); err != nil || !bytes.Equal(w.Bytes(), ji0) || !bytes.Equal(raw, ji0) {
 		note("JsonIndentWriterRaw wrote/returned other bytes than JsonIndent returns")
 	}
+	// equal content, other Go container types (a sub-document attached as mxj.Map, a YAML decoder's
+	// map[interface{}]interface{}, map[string]string, []string): the encoders coerce them (issue #48
+	// and the []string arm), so the bytes are those of the plain Map - except where the root rule
+	// looks at the members of a root-level list - and in any case the output is a pure function of
+	// the value and well formed
+	rootList := false
+	if len(m) == 1 {
+		for _, rv := range m {
+			_, rootList = rv.([]interface{})
+		}
+	}
+	for k := uint64(0); k < 2; k++ {
+		tx := mxj.Map(retype(m, hashStr(op)+k, "MYSL", 0).(map[string]interface{}))
+		b1, err1 := tx.Xml()
+		b2, _ := tx.Xml()
+		switch {
+		case !bytes.Equal(b1, b2):
+			note("TYPED Xml() of one Map holding other Go container types gives different bytes on a second call")
+		case err1 == nil && wellFormedAll(x0) && !wellFormedAll(b1):
+			note("TYPED Xml() of a Map holding equal content in other Go container types is not well formed: " + clip(string(b1), 160))
+		case !rootList && (err1 != nil || !bytes.Equal(b1, x0)):
+			note("TYPED Xml() of a Map holding equal content in other Go container types differs: " + clip(string(b1), 160))
+		}
+		if b, err := tx.XmlIndent(pre, ind); !rootList && (err != nil || !bytes.Equal(b, xi0)) {
+			note("TYPED XmlIndent() of a Map holding equal content in other Go container types differs")
+		}
+		tj := mxj.Map(retype(m, hashStr(op)+k, "MSL", 0).(map[string]interface{}))
+		if b, err := tj.Json(); err != nil || !bytes.Equal(b, j0) {
+			note("TYPED Json() of a Map holding equal content in other Go container types differs: " + clip(string(b), 160))
+		}
+		if b, err := tj.Json(true); err != nil || !bytes.Equal(b, js0) {
+			note("TYPED Json(safe) of a Map holding equal content in other Go container types differs")
+		}
+	}
 	// MapSeq
 	if ms, err := mxj.NewMapXmlSeq(doc); err == nil {
 		s0, _ := ms.Xml()
